@@ -1,6 +1,7 @@
+import os
 OUTSIDE = ("messages with more than one resource record or question; names other than the stated concrete ones (their "
            "octets decide every length); RDATA sizes beyond the stated shapes; the presentation-escaping of arbitrary label "
-           "octets (C02 name_shape_*, C03 escapes_*); CAA records with an empty value (legal per RFC 8659, deliberately refused "
+           "octets beyond the stated escapes_* texts (C02 name_shape_*); CAA records with an empty value (legal per RFC 8659, deliberately refused "
            "by the library's parser and writer: outside the supported subset)")
 ASSUMPTIONS = [
     "the oracle is harness/C04/refdec.c, an independent decoder written from RFC 1035/2535/2782/3403/3596/3597/6698/6891/"
@@ -139,8 +140,24 @@ def hdr_jobs(tier):
     return J
 
 
+def escape_roundtrip_jobs(tier):
+    """The statement's last sentence (presentation-format names round-trip through escaping without changing the label
+    bytes) is decided by C03's escapes_* harness (reference escaper / un-escaper written from RFC 1035 5.1 / RFC 4343 2.1 vs
+    the real ares_dns_name_write / ares_dns_name_parse): run it here as well so that this check is self-contained."""
+    import importlib.util
+    p = os.path.join(os.path.dirname(os.path.abspath(__file__)), "..", "C03", "jobs.py")
+    spec = importlib.util.spec_from_file_location("jobs_C03_reuse", p)
+    m = importlib.util.module_from_spec(spec); spec.loader.exec_module(m)
+    out = []
+    for j in m.esc_jobs(tier):
+        j = dict(j); j["harness"] = "../C03/" + j["harness"]
+        j["support"] = [("../C03/" + x if x == "c03_mem.c" else x) for x in j.get("support", [])]
+        out.append(j)
+    return out
+
+
 def jobs(tier, seed):
-    J = hdr_jobs(tier) + rr_jobs(tier)
+    J = hdr_jobs(tier) + rr_jobs(tier) + escape_roundtrip_jobs(tier)
     for j in J:
         j.setdefault("mem_gb", 6)
     return J
